@@ -32,9 +32,17 @@ def gen_history(rng, maxlen, mix):
     for _ in range(n):
         t += rng.choice([1, NS, NS + rng.randrange(NS), rng.randrange(20 * NS)])
         k = rng.random()
-        itv = rng.choice([ITV4, cfloat.encode(1.0), cfloat.encode(16.0), cfloat.encode(0.5)])
+        # update intervals: typical ones, a long one (so that a shorter one may follow it), and the ones eight of
+        # which are no time at all - zero, and negative (reported after a backwards step of the clock)
+        itv = rng.choice([ITV4, ITV4, cfloat.encode(1.0), cfloat.encode(16.0), cfloat.encode(0.5), cfloat.encode(1024.0), 0, cfloat.word(-(1 << 23), 4)])
         T = threshold(itv)
         d, e, o = cfloat.encode(rng.uniform(1e-4, 0.2)), cfloat.encode(rng.uniform(1e-6, 0.05)), cfloat.encode(rng.uniform(-0.05, 0.05))
+        if rng.random() < 0.12:
+            # root delay and dispersion of exactly one second (what chronyd reports right after its own start),
+            # exactly zero, and a large offset: a report is a report whatever its figures
+            one, zero = cfloat.encode(1.0), cfloat.encode(0.0)
+            d, e = rng.choice([(one, one), (one, e), (d, one), (zero, zero), (one, zero)])
+            o = rng.choice([o, cfloat.encode(-0.25), cfloat.encode(0.9)])
         # the PHC driver's number is added verbatim, whatever it is: also values no sane driver reports
         phc = rng.choice([0, 0, 0, rng.randrange(10 ** 5), rng.choice([-1, -12345, -(10 ** 9), -(10 ** 12), 10 ** 12, 2 ** 40, 2 ** 32 - 1, 2 ** 32, 2 ** 31 - 1, 2 ** 31, 65535])])
         prev = next((m for m in reversed(out) if m[0] == "r"), None)
